@@ -1262,9 +1262,11 @@ class Model(Object):
         self.objective.direction = {"maximize": "max", "minimize": "min"}.get(
             objective_sense, original_direction
         )
-        self.slim_optimize()
-        solution = get_solution(self, raise_error=raise_error)
-        self.objective.direction = original_direction
+        try:
+            self.slim_optimize()
+            solution = get_solution(self, raise_error=raise_error)
+        finally:
+            self.objective.direction = original_direction
         return solution
 
     def repair(
